@@ -639,4 +639,12 @@ theorem coupled_run (answer : Handle → SendResult) {s : State} {H : Hist} (c :
 theorem coupled_after (h : List Op) : Coupled (after h) (Hist.of h) :=
   coupled_run _ coupled_empty h
 
+/-! ### interleavings of thread programs -/
+
+/-- `Merge ts m`: `m` is an interleaving of the thread programs `ts` (each thread's calls in order). -/
+inductive Merge : List (List Op) → List Op → Prop where
+  | done (ts : List (List Op)) : (∀ t ∈ ts, t = []) → Merge ts []
+  | pick (ts : List (List Op)) (i : Nat) (op : Op) (rest m : List Op) :
+      ts[i]? = some (op :: rest) → Merge (ts.set i rest) m → Merge ts (op :: m)
+
 end Repe.Peers
